@@ -50,7 +50,7 @@ class XmlEventWriter(XmlWriter):
         pending_prefixes: The pending element namespace prefixes
     """
 
-    __slots__ = ("current_level", "pending_end_element")
+    __slots__ = ("after_characters", "current_level", "pending_end_element")
 
     def __init__(self, config: SerializerConfig, output: TextIOBase, ns_map: dict):
         """Initialize the writer."""
@@ -58,6 +58,7 @@ class XmlEventWriter(XmlWriter):
 
         self.current_level = 0
         self.pending_end_element = False
+        self.after_characters = False
 
     def build_handler(self) -> XMLGenerator:
         """Build the content handler instance.
@@ -78,7 +79,8 @@ class XmlEventWriter(XmlWriter):
         new namespaces context and queue the current tag for generation.
 
         The receiver will also write the necessary whitespace if
-        pretty print is enabled.
+        pretty print is enabled, unless character data was written
+        since the last tag: the whitespace would become part of it.
 
         Args:
             qname: The qualified name of the starting element
@@ -86,7 +88,7 @@ class XmlEventWriter(XmlWriter):
         super().start_tag(qname)
 
         if self.config.indent:
-            if self.current_level:
+            if self.current_level and not self.after_characters:
                 self.handler.ignorableWhitespace("\n")
                 self.handler.ignorableWhitespace(
                     self.config.indent * self.current_level
@@ -94,6 +96,7 @@ class XmlEventWriter(XmlWriter):
 
             self.current_level += 1
             self.pending_end_element = False
+            self.after_characters = False
 
     def end_tag(self, qname: str) -> None:
         """End tag notification receiver.
@@ -103,7 +106,8 @@ class XmlEventWriter(XmlWriter):
         and current context.
 
         The receiver will also write the necessary whitespace if
-        pretty print is enabled.
+        pretty print is enabled, unless character data was written
+        since the last tag: the whitespace would become part of it.
 
         Args:
             qname: The qualified name of the element
@@ -113,12 +117,22 @@ class XmlEventWriter(XmlWriter):
             return
 
         self.current_level -= 1
-        if self.pending_end_element:
+        if self.pending_end_element and not self.after_characters:
             self.handler.ignorableWhitespace("\n")
             self.handler.ignorableWhitespace(self.config.indent * self.current_level)
 
+        self.after_characters = False
         super().end_tag(qname)
 
         self.pending_end_element = True
         if not self.current_level:
             self.handler.ignorableWhitespace("\n")
+
+    def set_characters(self, data: str) -> None:
+        """Characters notification receiver.
+
+        Args:
+            data: The characters data to write
+        """
+        super().set_characters(data)
+        self.after_characters = True
